@@ -67,7 +67,9 @@ class SdkDriver:
             return v
         k = v["kind"]
         if k == "reg":
-            return self.regs[v["name"]].reg
+            # the handle itself (what an application passes) or its register - both are documented operand types of add()
+            self._n_reg_operands = getattr(self, "_n_reg_operands", 0) + 1
+            return self.regs[v["name"]] if self._n_reg_operands % 2 else self.regs[v["name"]].reg
         if k == "var":
             return self.var_register(v["name"])
         return self.future_of(v)
